@@ -243,6 +243,14 @@ def run_property(prop, tier="quick", replay=None):
           f"compared={compared} disagreements={len(all_dis)} monitor_hits={len(all_hits)} violations={len(violations)} wall={wall:.1f}s")
     if not st.ok:
         print(st.log[-1500:])
+    if os.path.realpath(C.REPO) != "/repo":
+        # the Gen tables were regenerated from another checkout: put the committed ones back
+        import subprocess
+        lock = C._flock()
+        try:
+            subprocess.run(["git", "-C", C.VERIF, "checkout", "--", "lean/GtModel/Gen"], capture_output=True)
+        finally:
+            lock.close()
     return 1 if violations else 0
 
 
